@@ -46,7 +46,7 @@ Fixpoint find_regex (key : string) (l : list (string * regex)) : option regex :=
 
 Definition enc_caps (c : caps) : sexp :=
   SList (flat_map (fun i => match cap_find i c with
-                            | Some (a, b) => [SList [of_nat i; of_nat a; of_nat b]]
+                            | Some (a, b) => [SList [of_nat i; SInt (Z.of_N a); SInt (Z.of_N b)]]
                             | None => []
                             end) (seq 1 9)).
 
@@ -94,14 +94,17 @@ Definition enc_full (fs : list lf) (r : result (list section * list (list ditem)
   | Err e => SList [SStr "err"; flags; feats; enc_err e]
   end.
 
-Definition run_C12x (s : sexp) : sexp :=
+(* fail closed: with a regex outside the criterion the matcher is not run at all *)
+Definition regexes_ok : bool := forallb (fun x => regex_ok (snd x)) all_regexes.
+
+Definition run_inner (s : sexp) : sexp :=
   match s with
   | SList [SStr "rx"; SStr key; line] =>
       match find_regex key all_regexes, dec_text line with
       | Some x, Some t =>
           match rx_match x t with
           | None => SList [SStr "none"]
-          | Some (e, c) => SList [SStr "match"; of_nat e; enc_caps c]
+          | Some (e, c) => SList [SStr "match"; SInt (Z.of_N e); enc_caps c]
           end
       | _, _ => bad_input
       end
@@ -124,3 +127,6 @@ Definition run_C12x (s : sexp) : sexp :=
       end
   | _ => bad_input
   end.
+
+Definition run_C12x (s : sexp) : sexp :=
+  if regexes_ok then run_inner s else SList [SStr "regex-outside-criterion"].
